@@ -162,7 +162,8 @@ pub fn session_kind(rng: &mut Rng, which: u64) -> EventKind {
             provider: s(rng),
             status: [ProviderEventStatus::Event, ProviderEventStatus::Done, ProviderEventStatus::InvalidJson][rng.usize_below(3)].clone(),
             event_name: os(rng),
-            data: ov(rng),
+            // a provider payload may be the JSON literal null: it goes out live as "data":null
+            data: if rng.chance(1, 10) { Some(Value::Null) } else { ov(rng) },
             raw: os(rng),
             errors: vs(rng),
             response_errors: vs(rng),
